@@ -116,6 +116,7 @@ pub fn c07_case(data: &[u8]) -> c07::Case {
         },
         weather,
         date,
+        boundary_probe: None,
     }
 }
 
